@@ -64,6 +64,7 @@ func runC07(p *core.Prog, r *core.Result) {
 		"R7.15 values handled by a host pickler: the encoder asks the pickler about every value that reaches the non-builtin branch - the call of Pickler.Pickle is conditional on nothing but the pickler being present, in particular on no state of the encoder (a cache of refusals by Go type makes whether a value round-trips depend on what was encoded before it)",
 		"R7.16 contents: every element the decoder adds to a dict or a set arrives or the decode fails - the error results of (*starlark.Dict).SetKey and (*starlark.Set).Insert on decoded keys are not dropped. A key that was hashable when it was encoded need not be once decoded: a host unpickler may rebuild it as an unhashable value (dawn's turns a function into a dict), and the entry then vanishes without an error, so two containers that differ only under such keys decode to equal values",
 		"R7.17 sharing is what the value has, not what its pickler adds: every argument a host pickler (a function converted to pickle.PicklerFunc) builds for a subject is computed from that subject alone - an argument object taken from state shared between subjects (a per-encoding table of first-seen code objects) is memoized once and back-referenced by every later subject, and the unpickler that completes its arguments in place then gives all of them the contents of the last one (C08's R8.6, C01's R1.15)",
+		"R7.18 every size class, at every nesting position: no method of the Decoder fails because its stack or memo has reached a fixed size (valid encodings keep arbitrarily many values on the stack: tuples are not batched, and every container still being filled keeps its partial batch below the nested one); the only length tests that fail are underflow tests",
 		"R7.12 the encoder's memo is consulted and filled only under the value being encoded itself (never under a key constructed from its contents), so values of different types never share a memo entry",
 		"R7.11 decoder cases that fill a container in place (push nothing) only shorten the operand stack: no stack slot is overwritten, so the object stays the one its memo entry refers to (sharing and self-reference survive)",
 	}
@@ -281,6 +282,7 @@ func runC07(p *core.Prog, r *core.Result) {
 
 	// ---- R7.16 no insertion error is dropped
 	checkInsertionErrors(p, r, "R7.16")
+	checkDecoderStackUnbounded(p, r, "R7.18")
 	{
 		var cases []pickleCase
 		for _, pk := range funcsConvertedTo(p, pkgPickle, "PicklerFunc") {
